@@ -74,7 +74,15 @@ def run_check(prop, copy, tier, runs, seed):
     t0 = time.time()
     p = subprocess.run(cmd, cwd=VERIF, env=env, capture_output=True, text=True)
     lines = [l for l in p.stdout.splitlines() if l.startswith(("VIOLATION", "violation:", "KNOWN-FINDING"))]
+    import re
+
+    m = re.search(r"runs=(\d+).*violating_runs=(\d+)", p.stdout)
+    global LAST_RATE
+    LAST_RATE = (int(m.group(2)), int(m.group(1))) if m else None
     return p.returncode, lines, time.time() - t0, p.stdout[-600:] + p.stderr[-600:]
+
+
+LAST_RATE = None
 
 
 def run_tests(copy):
@@ -160,13 +168,14 @@ def main():
             expect = item.get("expect", "caught")
             ok = (caught and expect == "caught") or (not caught and rc == 0 and expect == "survives")
             status = "caught" if caught else ("survived" if rc == 0 else f"exit {rc}")
-            print(f"[{'ok' if ok else 'MISS'}] {item['name']}: {status} in {dt:.0f}s (expected {expect})" + (f"; repo tests: {tests[1]}" if tests else ""))
+            rate = f" [{LAST_RATE[0]} of {LAST_RATE[1]} runs violate]" if LAST_RATE else ""
+            print(f"[{'ok' if ok else 'MISS'}] {item['name']}: {status} in {dt:.0f}s (expected {expect}){rate}" + (f"; repo tests: {tests[1]}" if tests else ""))
             for l in lines[:4]:
                 print("      " + l[:200])
             if rc not in (0, 1):
                 print(tail)
             results.append({"name": item["name"], "property": item["property"], "description": item.get("description"), "expect": expect, "exit": rc, "caught": caught,
-                            "ok": ok, "wall_s": round(dt, 1), "violation_lines": [l for l in lines if l.startswith("violation:")][:3],
+                            "ok": ok, "wall_s": round(dt, 1), "violating_runs": LAST_RATE[0] if LAST_RATE else None, "runs": LAST_RATE[1] if LAST_RATE else None, "violation_lines": [l for l in lines if l.startswith("violation:")][:3],
                             "repo_tests_still_pass": tests[0] if tests else None})
             if not ok:
                 failures += 1
